@@ -221,6 +221,12 @@ def describe(program, t):
     return program[t].op_code.name if t < len(program) else 'end'
 
 
+DYN_POP = [{'label': 'Top', 'group': 'Pole', 'location': 'Home', 'kind': 'plain'},
+           {'label': 'Middle', 'group': 'Pole', 'location': 'Home', 'kind': 'plain'},
+           {'label': 'Strip', 'group': 'Den', 'location': 'Home', 'kind': 'multizone', 'zones': [[0, 0, 0, 3500]] * 8},
+           {'label': 'Candle', 'group': 'Den', 'location': 'Office', 'kind': 'matrix', 'height': 3, 'width': 2}]
+
+
 def c05_generate(rng, thorough):
     """control-flow heavy scripts: definitions inside if/repeat bodies, breaks in else
     branches, returns inside nested loops, calls as arguments"""
@@ -241,6 +247,9 @@ def main():
     reqs = []
     items = []
     import c06
+    import runimpl
+    dyn_budget = [2500 if chk.thorough else 350]
+    dyn_cases = []
     todo = []
     for i in range(n):
         prog, pop = c05_generate(rng, chk.thorough)
@@ -300,6 +309,10 @@ def main():
                 [vmwire.enc_instr_fixed(a) for a in program]:
             chk.violation('load-modifies-program', 'loading changed the compiled program',
                           {'script': text})
+        # oracle 3 (below, after the loop): the REAL machine on this program
+        if must_accept and prog and dyn_budget[0] > 0:
+            dyn_budget[0] -= 1
+            dyn_cases.append(progcheck.Case(prog, DYN_POP, text=text))
         reqs.append(progcheck.image_request(code, rts))
         reqs.append(('vm.loadfull', vmwire.enc_program(program)))
         items.append((text, code, rts, bad))
@@ -307,6 +320,27 @@ def main():
             chk.nontrivial_case(text)
         if len(chk.coverage['samples']) < 3:
             chk.sample({'script': text[:300], 'image_len': len(code), 'routines': sorted(rts)})
+    # oracle 3: the image is only half of the property; the transfers happen in
+    # Machine._jump/_jsr/_return/_end_loop.  The real machine's trace must be the one the
+    # source-level semantics gives (a wrong transfer shows as a different trace or an abort), and
+    # the run must end with every frame popped and nothing on the evaluation stack.
+    dstats = {}
+    progcheck.run_cases(chk, dyn_cases, oracle_sig='control-transfer-wrong:on-the-real-machine',
+                        do_gen=False, do_vm=False, do_sem=True, stats=dstats)
+    stats['executed_on_real_vm'] = dstats
+    for c in dyn_cases:
+        res = c.res
+        if res is None or not res.compiled or res.timeout or res.fault is not None:
+            continue
+        fr, depth = res.job._machine._call_stack.get_top(), 0
+        while getattr(fr, 'parent', None) is not None:
+            depth += 1
+            fr = fr.parent
+        left = res.job._machine._vm_math.stack_height()
+        if depth != 0 or left != 0:
+            chk.violation('frames-do-not-balance',
+                          'after the run {} frame(s) are still on the call stack and {} value(s) on the '
+                          'evaluation stack'.format(depth, left), {'script': c.text})
     answers = chk.driver.ask_many(reqs)
     for k, (text, code, rts, bad) in enumerate(items):
         wf, full = answers[2 * k], answers[2 * k + 1]
